@@ -63,6 +63,22 @@ def run(tier):
             v.reject(f"C01:{r['_label']}",
                      {'label': r['_label'], 'failed_clauses': rejects[r['id']],
                       'n': r['n'], 'k': r['k']})
+    # cross-check with the native lattice models (notes only)
+    native = []
+    for (name, size, dname, kw), r in zip(dom, recs):
+        if name in ('Toric2DCode', 'Toric3DCode') and 'raised' not in r and r['n'] <= 110:
+            axis = kw.get('deformation_axis', 'y')       # class default for both toric codes
+            native.append(dict({k: r[k] for k in ('id', 'n', 'k', 'stabs', 'lx', 'lz')},
+                               cls=name, size=list(size), axis=axis,
+                               **{'def': dname or 'none'}))
+    native_notes = []
+    if native:
+        _, nst = common.eval_records('C01_Native', native, 'c01n', shards=16)
+        native_notes = nst['notes']
+        for note in native_notes[:10]:
+            lab = recs[note[0]]['_label']
+            print(f'NOTE: export of {lab} differs from the native lattice model in {note[1]} '
+                  '(not a violation; the property predicates decide)')
     rc = v.finish()
     labels = sorted({r['_label'] for r in recs})
     nontrivial = len({r['_label'] for r in good if len(r['stabs']) > 0})
@@ -82,6 +98,8 @@ def run(tier):
                     'Pauli!FailedValid',
             'classes': len({lab.split('(')[0] for lab in labels}),
             'max_n': max(r['n'] for r in recs),
+            'native_model_crosschecks': len(native),
+            'native_model_differences': len(native_notes),
             'export_s': round(t_export, 1),
             'tlc_s': round(st['wall_s'], 1),
             'exhaustive': True,
